@@ -114,12 +114,12 @@ class OPGenerator(Generator):
 
         # Methods taken from Fischetti et al. (1998) and Kool et al. (2019)
         if self.prize_type == "const":
-            prize = torch.ones(*batch_size, self.num_loc, device=self.device)
+            prize = torch.ones(*batch_size, self.num_loc)
         elif self.prize_type == "unif":
             prize = (
                 1
                 + torch.randint(
-                    0, 100, (*batch_size, self.num_loc), device=self.device
+                    0, 100, (*batch_size, self.num_loc)
                 ).float()
             ) / 100
         elif self.prize_type == "dist":  # based on the distance to the depot
